@@ -482,6 +482,21 @@ impl Model {
                 }
             }
         }
+        // refusals decided before the writer touches anything - a name that does not fit the 16-bit length field
+        // (checked first in start_entry) and an over-long comment (checked first in finish): the writer is what it
+        // was, and the model stays as strict as it was
+        let pure_guard = !ok
+            && !matches!(self.st, St::Closed | St::Unknown | St::Stuck | St::Dead)
+            && match op {
+                Op::StartFile { name, .. } | Op::StartExtra { name, .. } | Op::StartAligned { name, .. } | Op::AddSymlink { name, .. } => name.len() > 65535,
+                Op::AddDir { name, .. } => name.len() + if name.ends_with('/') || name.ends_with('\\') { 0 } else { 1 } > 65535,
+                Op::RawCopy { rename: Some(n), .. } => n.len() > 65535,
+                Op::Finish => self.comment.len() > 65535,
+                _ => false,
+            };
+        if pure_guard {
+            return Ok(());
+        }
         match op {
             Op::SetComment { c } => {
                 if self.st != St::Closed {
